@@ -146,6 +146,66 @@ Proof.
   vm_compute. reflexivity.
 Qed.
 
+(* ---- a new sub-element in FRONT of the SHORT-NAME (known finding C07 insert-before-short-name = C04's K04-front) ----
+   AUTOSAR 4.0.1 file; AR-PACKAGE n1 / ELEMENTS / ECUC-MODULE-DEF n3 / CONTAINERS / ECUC-PARAM-CONF-CONTAINER-DEF n5 / PARAMETERS /
+   ECUC-ADD-INFO-PARAM-DEF n7 / DERIVATION / ECUC-QUERYS / ECUC-QUERY-EXPRESSION n10 (node 15, SHORT-NAME node 16).
+   ECUC-QUERY-EXPRESSION is identifiable in 4.0.1 and its content is MIXED: calc_element_insert_range answers (0, len) for
+   every name, the SHORT-NAME is not protected.  create_sub_element_at(.., CONFIG-ELEMENT-DEF-GLOBAL-REF, 0) succeeds; the
+   child list [CONFIG-ELEMENT-DEF-GLOBAL-REF; SHORT-NAME] IS in specification order (Mixed: any order), but item_name, which
+   reads the first content item, now answers None while the path index still holds /n1/n3/n5/n7/n10, and (since loader fix
+   44e5d22) the saved file re-loads with RequiredSubelementMissing.  So for the one mixed+named type "SHORT-NAME first" is
+   NOT part of specification order; Tree/ProjectCanon.v NodeCanonAt asks for it separately (checked by world_checkb). *)
+Definition front_ops : list op :=
+  [OpNewModel; OpCreateFile 0 [102; 48] 1; OpCreateSub 0 5413; OpCreateNamed 1 5250 [110; 49]; OpCreateSub 2 3929;
+   OpCreateNamed 4 17 [110; 51]; OpCreateSub 5 1667; OpCreateNamed 7 3416 [110; 53]; OpCreateSub 8 2577;
+   OpCreateNamed 10 6194 [110; 55]; OpCreateSub 11 1410; OpCreateSub 13 5008; OpCreateNamed 14 3661 [110; 49; 48]].
+
+Lemma insert_before_short_name :
+  forall (tab_el tab_en : nametab) (root_attrs : list (N * cdata)),
+  exists (w : world) (h s c : id) (nh : node) (w' : world) (n ns : node),
+    run_ops RT tab_el tab_en ok_check REAL_LATEST root_attrs front_ops (mkWorld (fun _ => None) 0 [] []) = Val w /\
+    w_nodes w h = Some nh /\ n_content nh = [CElem s] /\
+    is_named_in_version RT (n_type nh) 1 = Val true /\ content_mode RT (n_type nh) = Val MMixed /\
+    item_name RT nh w = Val (OK (Some [110; 49; 48]), w) /\
+    calc_element_insert_range RT nh 959 1 w = Val (OK (0, 1), w) /\
+    e_create_sub_element_at RT REAL_LATEST h 959 0 w = Val (OK c, w') /\
+    w_nodes w' h = Some n /\ n_content n = [CElem c; CElem s] /\
+    w_nodes w' s = Some ns /\ n_name ns = name_short_name RT /\
+    Ordered RT (n_type n) 1 [Some 959; Some (name_short_name RT)] /\
+    item_name RT n w' = Val (OK None, w') /\
+    get_element_by_path 0 [47; 110; 49; 47; 110; 51; 47; 110; 53; 47; 110; 55; 47; 110; 49; 48] w' = Val (OK (Some h), w').
+Proof.
+  intros tab_el tab_en root_attrs.
+  eexists. exists 15, 16, 17. eexists. eexists. eexists. eexists.
+  split; [vm_compute; reflexivity|].
+  split; [vm_compute; reflexivity|].
+  split; [reflexivity|].
+  split; [vm_compute; reflexivity|].
+  split; [vm_compute; reflexivity|].
+  split; [vm_compute; reflexivity|].
+  split; [vm_compute; reflexivity|].
+  split; [vm_compute; reflexivity|].
+  split; [vm_compute; reflexivity|].
+  split; [reflexivity|].
+  split; [vm_compute; reflexivity|].
+  split; [vm_compute; reflexivity|].
+  split; [vm_compute; reflexivity|].
+  split; [vm_compute; reflexivity|].
+  vm_compute. reflexivity.
+Qed.
+
+(* [F] the identifiable datatypes whose content is NOT a Sequence (for a Sequence "SHORT-NAME first" is part of specification
+   order: Tree/RangeProofsShortFirst.v): exactly two — 1298 (Choice; once its SHORT-NAME exists no alternative can be created)
+   and 1923 (Mixed: ECUC-QUERY-EXPRESSION of AUTOSAR 4.0.1, the type of insert_before_short_name) *)
+Definition named_nonseq (T : tables) : list (N * N) :=
+  flat_map (fun ty => match short_name_version_mask T ty, T_datatypes T ty with
+                      | Val (Some _), Some d => if dt_mode d =? MSequence then [] else [(ty, dt_mode d)]
+                      | _, _ => []
+                      end) (idxs (n_datatypes T)).
+
+Lemma named_nonseq_real : named_nonseq RT = [(1298, MChoice); (1923, MMixed)].
+Proof. vm_compute. reflexivity. Qed.
+
 (* ---- "every node of every reachable world is Ordered for its CURRENT min_version" is false ----
    Ordered is relative to a version (find_sub_element is); min_version of an element changes when a file of another version
    joins the model.  History: new model; file f0 in the latest version; create FILE-INFO-COMMENT (name 1043, not in 4.0.1) in
